@@ -28,6 +28,34 @@ InStr(body) == <<34>> \o body \o <<34>>
 InKey(body) == <<123, 34>> \o body \o <<34, 58, 48, 125>>
 
 Pad(s, n) == [i \in 1..n |-> IF i <= Len(s) THEN s[i] ELSE -1]
+\* the n characters after the first d, padded with -1
+DropPad(s, d, n) == [i \in 1..n |-> IF d + i <= Len(s) THEN s[d + i] ELSE -1]
+
+\* outcome tuple of a whole document: the number of fragments and the span of the last one, or the error
+DocTuple(text) ==
+  LET st == Run(text, Strict) IN
+  IF st.mode = "done" THEN <<"ok", Len(st.cm), st.cm[Len(st.cm)].s, st.cm[Len(st.cm)].e>>
+  ELSE IF st.err.kind = "unexpected" THEN <<"unexpected", st.err.pos, st.err.ch, -1>>
+  ELSE <<st.err.variant, st.err.units[1], IF Len(st.err.units) >= 2 THEN st.err.units[2] ELSE -1, -1>>
+
+\* the syntactic contexts in which every scalar is tried ("ctx" sweeps): <<prefix, suffix>>
+Contexts == [
+  str_then_item  |-> <<<<91, 34>>, <<34, 44, 49, 93>>>>,          \* ["x",1]   positions after a raw character
+  after_int      |-> <<<<91, 49>>, <<93>>>>,                       \* [1x]
+  value_start    |-> <<<<91>>, <<93>>>>,                           \* [x]
+  after_comma    |-> <<<<91, 49, 44>>, <<93>>>>,                   \* [1,x]
+  after_key      |-> <<<<123, 34, 97, 34>>, <<58, 49, 125>>>>,     \* {"a"x:1}
+  after_member   |-> <<<<123, 34, 97, 34, 58, 49>>, <<125>>>>,     \* {"a":1x}
+  in_literal     |-> <<<<91, 116, 114, 117>>, <<93>>>>,            \* [trux]
+  after_minus    |-> <<<<91, 45>>, <<93>>>>,                       \* [-x]
+  after_point    |-> <<<<91, 49, 46>>, <<53, 93>>>>,               \* [1.x5]
+  after_exp      |-> <<<<91, 49, 101>>, <<49, 93>>>>,              \* [1ex1]
+  after_zero     |-> <<<<91, 48>>, <<93>>>>,                       \* [0x]
+  top            |-> <<<<>>, <<>>>>,                               \* x
+  after_top_num  |-> <<<<49>>, <<>>>>,                             \* 1x
+  after_top_val  |-> <<<<91, 93>>, <<>>>>,                         \* []x
+  obj_start      |-> <<<<123>>, <<125>>>>                          \* {x}
+]
 
 \* sw = <<name, parameters...>>
 SpecT(sw, x) ==
@@ -48,6 +76,11 @@ SpecT(sw, x) ==
     \* compact printing of a one-character string / key
     [] sw[1] = "print_str" -> <<"text">> \o Pad(Render(VStr(<<x>>), Compact), 9)
     [] sw[1] = "print_key" -> <<"text">> \o Pad(Render(VObj(<<Entry(<<x>>, VNull)>>), Compact), 16)
+    \* every scalar in a syntactic context (through the string or the byte-slice entry point: same outcome)
+    [] sw[1] = "ctx" -> LET c == Contexts[sw[2]] IN DocTuple(c[1] \o <<x>> \o c[2])
+    \* compact text of a string / key longer than the inline capacity whose last character is x (String::from / to_string)
+    [] sw[1] = "print_long_str" -> <<"text">> \o DropPad(Render(VStr(Rep(97, 20) \o <<x>>), Compact), 21, 9)
+    [] sw[1] = "print_long_key" -> <<"text">> \o DropPad(Render(VObj(<<Entry(Rep(97, 20) \o <<x>>, VNull)>>), Compact), 22, 14)
     \* the width the layout decision must attribute to a one-character string / key: the smallest Width limit under which
     \* ["x"] / {"x":null} still stays on one line is the number of characters of its one-line form (C13)
     [] sw[1] = "width_str" -> <<"width", Len(OneLine(VArr(<<VStr(<<x>>)>>), Compact))>>
